@@ -47,7 +47,8 @@ class LazyConversion:
     @property
     def inherited(self) -> Optional[bool]:
         conversion = self.get()
-        return isinstance(conversion, Conversion) and conversion.inherited
+        # a bare converter is inherited by subclasses like a Conversion without flag
+        return conversion.inherited if isinstance(conversion, Conversion) else None
 
 
 ConvOrFunc = Union[Conversion, Converter, property, LazyConversion]
